@@ -101,7 +101,9 @@ def candidates : List Route → List Str → Option (List Cand)
 def selectRoutes (routes : List Route) (qs : List Str) : Option (List Route) :=
   (candidates E routes qs).map (fun cs => (Sort.insertionSort candLess cs).map (·.route))
 
-/-- the loop of curly.go:141 `computeWebserviceScore`; `none` = `false, _` -/
+/-- the arithmetic of curly.go:156 `computeWebserviceScore` without the regular expressions of root
+    parameters (what the loop computed before fix 19aa57d; the specifications of C03 and C18 speak
+    about these numbers); `none` = `false, _` -/
 def scoreWalk : List Str → List Str → Nat → Option Nat
   | [], _, acc => some acc
   | _ :: _, [], _ => none
@@ -115,14 +117,45 @@ def scoreWalk : List Str → List Str → Nat → Option Nat
 def wsScore (qs toks : List Str) : Option Nat :=
   if toks.length > qs.length then none else scoreWalk toks qs 0
 
-/-- curly.go:125 `detectWebService`: first service with the strictly greatest score -/
-def detectWebService (qs : List Str) : List Service → Option (Service × Nat) → Option (Service × Nat)
-  | [], best => best
+/-- result of `computeWebserviceScore` -/
+inductive Score where
+  | no                  -- `false, _`
+  | yes (score : Nat)   -- `true, score`
+  | panic               -- slice bounds in `regularMatchesPathToken`
+  deriving DecidableEq, Repr
+
+/-- the loop of curly.go:156 `computeWebserviceScore`: a `{name:regex}` token of the root path is
+    matched with `regularMatchesPathToken` (only `matchesToken` is looked at) -/
+def scoreWalkE : List Str → List Str → Nat → Score
+  | [], _, acc => .yes acc
+  | _ :: _, [], _ => .no
+  | other :: ts, each :: qs, acc =>
+    if each.isEmpty && other.isEmpty then scoreWalkE ts qs (acc + 1)
+    else if !other.isEmpty && hasPrefix ['{'] other then
+      if each.isEmpty then .no else
+      match index ':' other with
+      | some colon =>
+        match regularMatches E other colon each with
+        | .fail => .no
+        | .panic => .panic
+        | _ => scoreWalkE ts qs (acc + 1)
+      | none => scoreWalkE ts qs (acc + 1)
+    else if each != other then .no
+    else scoreWalkE ts qs (acc + (ts.length + 1) * 10)
+
+def wsScoreE (qs toks : List Str) : Score :=
+  if toks.length > qs.length then .no else scoreWalkE E toks qs 0
+
+/-- curly.go:140 `detectWebService`: first service with the strictly greatest score; the outer
+    `none` = a panic while scoring -/
+def detectWebService (qs : List Str) : List Service → Option (Service × Nat) → Option (Option (Service × Nat))
+  | [], best => some best
   | s :: ss, best =>
-    match wsScore qs (tokenize s.rootPath), best with
-    | some sc, none => detectWebService qs ss (some (s, sc))
-    | some sc, some (b, bs) => if sc > bs then detectWebService qs ss (some (s, sc)) else detectWebService qs ss (some (b, bs))
-    | none, best => detectWebService qs ss best
+    match wsScoreE E qs (tokenize s.rootPath), best with
+    | .panic, _ => none
+    | .yes sc, none => detectWebService qs ss (some (s, sc))
+    | .yes sc, some (b, bs) => if sc > bs then detectWebService qs ss (some (s, sc)) else detectWebService qs ss (some (b, bs))
+    | .no, best => detectWebService qs ss best
 
 end Curly
 end Restful
